@@ -7,7 +7,7 @@ Driver handlers of the `ver` family (src/resources/version_info.rs).
     ver <hex of the block bytes> <query> [args] [tree=<abstract tree>]
     verat <align16> <hex> <query> [args]            -- block placed at an address that is align16 mod 16
 
-queries: events | fixed | translation | value <LLLLCCCC> <key: utf-16 units, 4 hex digits each>
+queries: events | events_skip <n> | fixed | translation | value <LLLLCCCC> <key: utf-16 units, 4 hex digits each>
        | strings <LLLLCCCC> | file_info | source | langparse
 
 Canonical text: a slice is `<byte offset>:<byte length>=<words, 4 hex digits each | ->`, a Rust
@@ -157,9 +157,24 @@ def specPart (ws : List Nat) (tree : Option String) (q : List String) : String :
          | _ => true)
       s!" ## enc={if enc then 1 else 0} hyp={if hyp then 1 else 0} wf={if v.wf then 1 else 0} fits={if v.fits tight then 1 else 0} spec={specAnswer v q}"
 
+/-- a user visitor that records everything and declines the first `n` roots (`version_info` returns
+`false`): exercises the `continue` of the root loop -/
+def recorderSkip : Visitor (List Event × Nat) where
+  versionInfo s k f :=
+    match s.2 with
+    | 0 => ((s.1 ++ [.versionInfo k f], 0), true)
+    | n + 1 => ((s.1 ++ [.versionInfo k f], n), false)
+  fileInfo s k := ((s.1 ++ [.fileInfo k], s.2), true)
+  stringTable s k := ((s.1 ++ [.stringTable k], s.2), true)
+  string s k v := (s.1 ++ [.string k v], s.2)
+  var s k v := (s.1 ++ [.var k v], s.2)
+  enterScope s d := (s.1 ++ [.enter d], s.2)
+  exitScope s d := (s.1 ++ [.exit d], s.2)
+
 def answer (words : Sl) (q : List String) : String :=
   match q with
   | ["events"] => outStr (fun es => join (es.map evS) ";") (events words)
+  | ["events_skip", n] => outStr (fun r => join (r.1.map evS) ";") (visit recorderSkip words ([], num n))
   | ["fixed"] => outStr (fun | some f => slS f | none => "none") (fixed words)
   | ["translation"] => outStr langsS (translation words)
   | ["value", l, k] => outStr (fun | some s => utf8 s | none => "none") (value words (parseLang l) (lossy (unhexW k)))
